@@ -159,7 +159,7 @@ def to_query(a):
     if op == "prefix":
         return query.Prefix(a["f"], term_text(a["t"]), boost=b)
     if op == "wildcard":
-        return query.Wildcard(a["f"], u"".join(u"?" if c == -1 else u"*" if c == -2 else LETTERS[c] for c in a["t"]),
+        return query.Wildcard(a["f"], u"".join(u"?" if c == -1 else u"*" if c == -2 else u"[ab]" if c == -3 else LETTERS[c] for c in a["t"]),
                               boost=b)
     if op == "fuzzy":
         return query.FuzzyTerm(a["f"], term_text(a["t"]), boost=b, maxdist=a["maxdist"],
@@ -304,7 +304,7 @@ def rand_query(rng, depth, nletters=2, maxlen=2, scored_only=False, boosts=True,
         if op == "prefix":
             return {"op": "prefix", "f": f, "t": rand_term(rng, nletters, 1), "b4": b4}
         if op == "wildcard":
-            pat = [rng.choice([1, 2, -1, -2]) for _ in range(rng.randrange(1, 4))]
+            pat = [rng.choice([1, 2, -1, -2, 1, 2, -1, -2, -3]) for _ in range(rng.randrange(1, 4))]   # -3: [ab]
             return {"op": "wildcard", "f": f, "t": pat, "b4": b4}
         if op == "fuzzy":
             return {"op": "fuzzy", "f": f, "t": rand_term(rng, nletters, maxlen + 1), "maxdist": rng.choice([1, 1, 2]),
